@@ -52,6 +52,11 @@ func c08Programs() map[string]e3Spec {
 			"TestAB": {Calls: []e3Call{snap("default")}},
 			"TestB":  {Calls: []e3Call{snap("default")}},
 		},
+		"P5-numbered-custom-name": {
+			"TestSub": {Calls: []e3Call{snap("filename-n"), snap("filename-n")}, Subs: []e3Sub{{Name: "sub", Calls: []e3Call{snap("filename-n")}}}},
+			"TestA":   {Calls: []e3Call{snap("default")}},
+			"TestB":   {Calls: []e3Call{{API: "ssnap", Cfg: "default"}}},
+		},
 		"P3-sole-owner": {
 			"TestB":   {Calls: []e3Call{snap("default"), {API: "ssnap", Cfg: "default"}}},
 			"TestA":   {Calls: []e3Call{snap("default")}},
@@ -125,8 +130,31 @@ var standaloneRe = regexp.MustCompile(`^(.*)_(\d+)\.snap(\..*)?$`)
 
 func c08Attribute(tree e3Tree, trace []string) c08Owned {
 	o := c08Owned{entries: map[string][]string{}, files: map[string][]string{}}
+	standaloneFiles := map[string]bool{}
+	{
+		k := map[string]int{}
+		for _, l := range trace {
+			f := strings.Fields(l)
+			if len(f) != 5 || f[0] != "call" || (f[2] != "ssnap" && f[2] != "sjson") {
+				continue
+			}
+			base := strings.ReplaceAll(f[1], "/", "_")
+			if f[3] == "filename" {
+				base = "custom"
+			}
+			ext := ""
+			if f[2] == "sjson" {
+				ext = ".json"
+			}
+			if f[3] == "ext" {
+				ext = ".txt"
+			}
+			k[base+ext]++
+			standaloneFiles[fmt.Sprintf("%s_%d.snap%s", base, k[base+ext], ext)] = true
+		}
+	}
 	for f, data := range tree {
-		if standaloneRe.MatchString(filepath.Base(f)) {
+		if standaloneFiles[filepath.Base(f)] {
 			continue
 		}
 		es, err := e3Parse(data)
@@ -424,7 +452,7 @@ func runC08Mode(tier, scratch, replay string, nworkers int, mode string) *merged
 			case cell.Run != "" && itemIsFile && !bySkip(name) && (file == "a_test.snap" || file == "b_test.snap") && c08SourceHasMatch(file, runRe):
 				// K7: some function of the source file matches the pattern
 				return "K7-file-level-rule-function-in-source-matches"
-			case cell.Run != "" && itemIsFile && file != "a_test.snap" && file != "b_test.snap":
+			case cell.Run != "" && itemIsFile && !bySkip(name) && file != "a_test.snap" && file != "b_test.snap":
 				// K4: no source file is named after this snapshot file
 				return "K4-file-skip-derives-source-name-from-snapshot-name"
 			}
